@@ -17,15 +17,15 @@ checks = {
  "C07": ("exploration", "translated-twin simulation with a call recorder between altroot and underlying filesystem, hostile path expressions", "7/C07",
          "Each operation runs through AltrootFS(U at P) and, translated to P+q, on an identical twin U'; outcomes, the whole of U vs U' (inside and beside P), the altroot view vs the subtree, every path the altroot hands to U (recorder), and sentinels beside physical roots are compared after every step; 45% of path expressions are hostile equivalents ('..' chains, absolute segments, './', '//')."),
  "C08": ("exploration", "recorded simulation: call log of every layer plus deep before/after snapshots of lower layers", "7/C08",
-         "Overlays of 2-4 layers (Mem/Phys/altroot/nested overlay layers, generated lower contents); after every step no mutating call may have reached a lower layer (or any layer during a pure observer), and type/bytes/created/modified of every lower entry are unchanged."),
+         "Overlays of 2-4 layers (Mem/Phys/altroot/nested overlay layers, generated lower contents); after every step no mutating call may have reached a lower layer (or any layer during a pure observer), and type/bytes/created/modified of every lower entry are unchanged; 40% of the runs fail one underlying call. A third of the runs are replayed through the async port (AsyncOverlayFS stacks inside a tokio runtime, recorder on every async layer, half of them with a k-th-call failure), and a quarter of the all-memory runs end with a two-thread phase under the seeded scheduler (tail of the history split over two callers, or a targeted writer-vs-remover race on a lower-layer file): no mutating call may reach a lower layer under any explored schedule."),
  "C09": ("exploration", "seeded search over histories on pre-populated overlays, refinement check against the union model", "7/C09",
          "Model initialised with the upper-shadows-lower union of generated type-consistent layer contents (1-4 layers, same path in several layers with different bytes), then C01's oracle with a mix biased to create-over-lower, remove-with-lower-children, append-to-lower."),
  "C10": ("exploration", "removal/re-creation cycle workload with tombstone, freshness and marker-hygiene monitors", "7/C10",
-         "1-4 cycles of removals (file, empty dir, remove_dir_all of lower subtrees), unrelated operations and re-creation with same/other type on 2-4 layer overlays; after every later step removed paths and former descendants are invisible to all six observers, re-created entries hold only new content, no listing/walk yields a bookkeeping name. In a third of the runs one re-creation is made to fail by an injected I/O error of an underlying call (a failed re-creation re-creates nothing), and part of the runs are replayed, with the same failure and seeded Pending injection, through the async overlay."),
+         "1-4 cycles of removals (file, empty dir, remove_dir_all of lower subtrees), unrelated operations and re-creation with same/other type on 2-4 layer overlays; after every later step removed paths and former descendants are invisible to all six observers, re-created entries hold only new content, no listing/walk yields a bookkeeping name. In a third of the runs one re-creation is made to fail by an injected I/O error of an underlying call (a failed re-creation re-creates nothing), and part of the runs are replayed, with the same failure and seeded Pending injection, through the async overlay. An operation that needs its target to exist (append, read, remove, copy/move source, time setter) and succeeds on a removed, not re-created entry is reported as well."),
  "C11": ("exploration", "seeded search over source trees and ordered filesystem pairs, refinement check against a two-filesystem model", "7/C11",
          "copy/move/copy_dir/move_dir/create_dir_all/remove_dir_all between same instance (fast paths), two instances of one backend and two different stacks; return values, both filesystems' full snapshots and refusal of existing destinations without side effects."),
  "C12": ("exploration", "error monitor over failing calls with disjoint inner/outer name pools", "7/C12",
-         "Every Err of every call and every walk item in failure-heavy histories on adapter stacks: path is not the placeholder, lies in the caller's namespace at/above/below receiver or destination, Display leaks no inner name; not-found / file-exists / directory-exists / invalid-path / not-supported classes where the statement demands them."),
+         "Every Err of every call and every walk item in failure-heavy histories on adapter stacks: path is not the placeholder, lies in the caller's namespace at/above/below receiver or destination, Display leaks no inner name; not-found / file-exists / directory-exists / invalid-path / not-supported classes where the statement demands them. In a third of the runs one underlying call of one operation (biased to composites) fails with an injected I/O error; the error of that step must satisfy the same path rules (classification is judged on fault-free steps only) and the run ends there."),
  "C13": ("exploration", "unrestricted call sequences with environment, I/O and stale-handle faults under catch_unwind", "7/C13",
          "All backends incl. EmbeddedFS and type-conflicting overlay layers; hostile joins, root calls, wrong-type calls, extreme seek offsets, zero-length buffers, handles kept across removals; on-disk non-UTF-8 names, dangling symlinks, entries removed behind the library; k-th-call I/O errors (one-shot/sticky), short I/O, EINTR. Any panic in a call, handle call, observer or drop is a violation."),
  "C14": ("exploration", "handle call scripts compared call by call with std::io::Cursor (count feedback), publish check at flush/drop", "7/C14",
@@ -35,11 +35,11 @@ checks = {
  "C16": ("exploration", "controlled thread scheduler at lock-acquisition granularity (hooked RwLock), linearizability against sequential runs of the real code", "7/C16",
          "Small programs (2-3 threads, <= 9 API calls: create_dir, create_file/append sessions as open+write+drop, remove_file, remove_dir, exists, metadata, read_dir, open+read on <= 4 overlapping paths, optional initial content) run on real threads under a baton scheduler that decides which thread passes each MemoryFS lock acquisition (seeded uniform and PCT depth 1-3, 60 schedules per program); the concurrent per-call results and final snapshot must equal those of some program-order-respecting sequential order, all of which are executed on a fresh MemoryFS; panics, deadlock (all threads blocked) and livelock (> 20000 decisions) are violations."),
  "C17": ("exploration", "controlled thread scheduler at lock (MemoryFS) and trait-call (SimFS boundary) granularity over concurrent create_dir_all programs", "7/C17",
-         "2-4 threads each calling create_dir_all (sometimes twice) on paths of depth 1-4 that share prefixes of every length, optional pre-existing prefixes, on Mem, Altroot(Mem), Overlay(Mem..) at lock granularity (writer-preferring lock model: a nested read acquisition behind a waiting writer is a deadlock) and PhysicalFS / Altroot(Phys) / Overlay(Phys,Mem) at trait-call and syscall granularity (vsim defines mkdir/rmdir/unlink/rename itself, yields to the scheduler and forwards to the real function, so the scheduler serialises the syscalls and runs replay); every call must return Ok and afterwards every requested path and ancestor is a directory."),
+         "2-4 threads each calling create_dir_all (sometimes twice) on paths of depth 1-4 that share prefixes of every length, optional pre-existing prefixes, on Mem, Altroot(Mem), Overlay(Mem..) at lock granularity (writer-preferring lock model: a nested read acquisition behind a waiting writer is a deadlock) and PhysicalFS / Altroot(Phys) / Overlay(Phys,Mem) at trait-call and syscall granularity (vsim defines mkdir/rmdir/unlink/rename itself, yields to the scheduler and forwards to the real function, so the scheduler serialises the syscalls and runs replay); every call must return Ok and afterwards every requested path and ancestor is a directory. Half of the overlay programs start after a finished sequential history in which directories of the chain that live in a lower layer were removed through the overlay (and sometimes partly re-created), so that the threads create below deletion markers."),
  "C19": ("exploration", "time-mode histories with a shadow metadata oracle (no wall clock in any comparison)", "7/C19",
-         "Three setters in all orders on files and directories with epoch/negative/sub-second/far values, interleaved with write sessions; metadata read immediately before/after: exact value, other fields/len/type/bytes unchanged, NotSupported or any error changes nothing, creation time survives appends on memory, adapters report the serving entry's timestamps."),
+         "Three setters in all orders on files and directories with epoch/negative/sub-second/far values, interleaved with write sessions; metadata read immediately before/after: exact value, other fields/len/type/bytes unchanged, NotSupported or any error changes nothing, creation time survives appends on memory, adapters report the serving entry's timestamps; a support model (which stack supports which setter) decides accepted vs not-supported. Physical stacks are replayed through the async port inside a tokio runtime (field set exactly, others unchanged, unsupported = not-supported), and on all-physical overlays every async setter must be accepted or refused exactly as the sync one (an entry that lives only in a lower layer is refused)."),
  "C20": ("fault_enumeration", "per-operation exhaustive enumeration of the failing underlying call inside seeded histories", "7/C20",
-         "For every operation i of each seeded history a fault-free pass counts the N_i calls made into the wrapped filesystems; for every k in 1..N_i a fresh stack replays the prefix, fails call k (4 I/O error kinds, one-shot; sticky in 30% of histories) and judges: Ok => model value and full effect on a full snapshot, else an error (items of walk_dir count); never a panic; no mutating call on a lower overlay layer; after a verified success the rest of the history keeps tracking the model."),
+         "For every operation i of each seeded history a fault-free pass counts the N_i calls made into the wrapped filesystems; for every k in 1..N_i a fresh stack replays the prefix, fails call k (4 I/O error kinds, one-shot; sticky in 30% of histories) and judges: Ok => model value and full effect on a full snapshot, else an error (items of walk_dir count); never a panic; no mutating call on a lower overlay layer; after a verified success the rest of the history keeps tracking the model. Every 4th history on a stack without a physical layer is enumerated through the async port as well (PendFS k-th-call failure under seeded Pending injection)."),
 }
 notes = {
  "C01": "Trusted: the reference model (sim/src/model.rs, ~350 lines) encodes the contracts of DESIGN 3.3; PhysicalFS runs on the real kernel (tmpfs). One known finding (OverlayFS::remove_file on an empty directory, pinned by an existing test) is listed in known_findings.json.",
@@ -52,7 +52,7 @@ notes = {
  "C09": "Layer contents are generated type-consistent (the statement defines the union for that case). Same known finding as C01.",
  "C10": "Reserved names are never probed by path, only listings/walks are inspected (nested overlays reach markers legitimately).",
  "C11": "copy_dir/move_dir with a wrong-typed or missing source and into the own subtree are not generated (unspecified / documented non-termination). Same known finding as C01.",
- "C12": "Faults are off (the statement is about reachable states, not injected failures).",
+ "C12": "Under an injected failure only the path rules are judged (placeholder, inner namespace, relation to receiver/destination), not the error class; the injected error itself is an I/O-class error.",
  "C13": "Process aborts (stack overflow, allocation failure) are not caught by catch_unwind: they would end the check with a non-zero, non-1 status. File sizes and writer seek targets are bounded to 1 MiB.",
  "C14": "Seeks on append handles are compared on all-memory stacks only; offsets beyond +-2^40 are left to C13 (OS limits differ from Cursor).",
  "C15": "Own single-threaded executor (futures::executor::block_on would make AsyncWritableFile::drop's nested block_on panic - executor choice is outside the statement). Timestamps and seeking write handles (absent in the async API) excluded. AsyncPhysicalFS completes on async-std's blocking pool: outcomes are compared, poll counts on that backend are not. One known finding (async-std File after a zero-length read).",
